@@ -82,7 +82,7 @@ package common
 //@   requires rim != nil && rim.wf()
 //@   modifies rim.keys, rim.mapping[*]
 //@   ensures[wf]      rim.wf()
-//@   ensures[exists]  old(__in(key, rim.mapping)) ==> IsStore(ret0, KeyAlreadyExists) && rim.mapping[key] == old(rim.mapping[key])
+//@   ensures[exists]  old(__in(key, rim.mapping)) ==> IsStore(ret0, KeyAlreadyExists) && __in(key, rim.mapping) && rim.mapping[key] == old(rim.mapping[key])
 //@   ensures[added]   !old(__in(key, rim.mapping)) ==> ret0 == nil && __in(key, rim.mapping) && __fresh(rim.mapping[key]) && rim.mapping[key].lastIndex == -1 && len(rim.mapping[key].items) == 0
 //@   ensures[others]  forall k uint32 :: k != key ==> __in(k, rim.mapping) == old(__in(k, rim.mapping)) && rim.mapping[k] == old(rim.mapping[k])
 
